@@ -29,7 +29,7 @@ NORM = "synrbl.SynUtils.chem_utils.normalize_smiles"
 WC = "synrbl.SynUtils.chem_utils.wc_similarity"
 
 
-def key_is_injective(key: Optional[ast.AST]) -> (bool, str):
+def key_is_injective(key: Optional[ast.AST], lookup=None) -> (bool, str):
     if key is None:
         return True, "no key: elements are compared themselves"
     if isinstance(key, ast.Lambda) and len(key.args.args) == 1:
@@ -42,6 +42,13 @@ def key_is_injective(key: Optional[ast.AST]) -> (bool, str):
         return False, "key %s does not contain the element itself, so distinct molecules can tie" % unparse(b)
     if isinstance(key, ast.Name) and key.id in ("str", "repr"):
         return True, "key is the identity on strings"
+    if isinstance(key, ast.Name) and lookup is not None:
+        g = lookup(key.id)
+        if g is not None and len(g.params) == 1:
+            body = [x for x in g.node.body if not (isinstance(x, ast.Expr) and isinstance(x.value, ast.Constant))]
+            if len(body) == 1 and isinstance(body[0], ast.Return) and body[0].value is not None:
+                lam = ast.Lambda(args=ast.arguments(posonlyargs=[], args=[ast.arg(arg=g.params[0])], kwonlyargs=[], kw_defaults=[], defaults=[]), body=body[0].value)
+                return key_is_injective(lam)
     return False, "key %s is not recognised as injective" % unparse(key)
 
 
@@ -399,7 +406,7 @@ def check(ctx) -> None:
     ctx.require(sorts, "normalize_smiles no longer sorts the components")
     for g, n in sorts:
         key = next((k.value for k in n.keywords if k.arg == "key"), None)
-        ok, why = key_is_injective(key)
+        ok, why = key_is_injective(key, lambda nm, _g=g: prog.functions.get(_g.module.name + "." + nm))
         ctx.instance("C17-O1", "%s: %s" % (g.name, unparse(n)[:90]), g.loc(n), ok=ok, reason=why)
         if not ok:
             ctx.finding("C17-O1", "chem_utils.%s:sort-key" % g.name, g.loc(n), "the canonical order of the molecules is not a total order: " + why)
@@ -426,6 +433,8 @@ def check(ctx) -> None:
                 for _, v2, _j in assignments_to(g, v.args[0].id):
                     if canonical_elements(g, v2):
                         normalised = True
+            if isinstance(v, ast.Call) and getattr(v.func, "id", "") == "sorted" and v.args and canonical_elements(g, v.args[0]):
+                normalised = True  # sorted([normalize_smiles(t) for t in ...], key=..)
         if g is f:
             joined_direct = any(j.args and isinstance(j.args[0], ast.Name) and j.args[0].id == lst for j in joins)
         else:
@@ -481,6 +490,18 @@ def check(ctx) -> None:
     for n in own_nodes(gd.node):
         if isinstance(n, ast.Assign) and len(n.targets) == 1 and isinstance(n.targets[0], ast.Name) and isinstance(n.value, ast.ListComp):
             comps[n.targets[0].id] = n.value
+    # `pairs = [(a, b) for a, b in zip(A, B) if a != b]; L1 = [a for a, _ in pairs]; L2 = [b for _, b in pairs]`: each
+    # projection is the comprehension over the zip itself that picks that side
+    import copy as _copy
+
+    for nm, c_ in list(comps.items()):
+        if len(c_.generators) == 1 and not c_.generators[0].ifs and isinstance(c_.generators[0].iter, ast.Name) and c_.generators[0].iter.id in comps and isinstance(c_.generators[0].target, ast.Tuple) and isinstance(c_.elt, ast.Name):
+            src = comps[c_.generators[0].iter.id]
+            tg = c_.generators[0].target
+            if isinstance(src.elt, ast.Tuple) and len(src.elt.elts) == len(tg.elts) and all(isinstance(x, ast.Name) for x in tg.elts) and len(src.generators) == 1:
+                pos = [i for i, x in enumerate(tg.elts) if x.id == c_.elt.id]
+                if len(pos) == 1 and isinstance(src.elt.elts[pos[0]], ast.Name):
+                    comps[nm] = ast.ListComp(elt=_copy.deepcopy(src.elt.elts[pos[0]]), generators=_copy.deepcopy(src.generators))
     joined = [c.args[0].id for c in calls(gd) if isinstance(c.func, ast.Attribute) and c.func.attr == "join" and c.args and isinstance(c.args[0], ast.Name)]
     lists = [x for x in joined if x in comps]
     sym, why = False, "the two difference lists are not both comprehensions (%s)" % sorted(comps)
@@ -566,7 +587,7 @@ def check(ctx) -> None:
                 return True  # re-ordering of itself (token = sorted(token, ...))
             a = assignments_to(f, e.id)
             b2 = busy | {e.id}
-            direct = [v for _, v, _i in a if isinstance(v, ast.ListComp)]
+            direct = [v for _, v, _i in a if isinstance(v, ast.ListComp) or (isinstance(v, ast.Call) and getattr(v.func, "id", "") in ("sorted", "list") and v.args and isinstance(v.args[0], ast.ListComp))]
             return bool(a) and any(recursive(v, b2) for v in direct) and all(recursive(v, b2) or (isinstance(v, ast.Call) and isinstance(v.func, ast.Attribute) and v.func.attr == "split") for _, v, _i in a)
         if isinstance(e, ast.Call) and getattr(e.func, "id", "") in ("sorted", "list") and e.args:
             return recursive(e.args[0], busy)
